@@ -56,6 +56,7 @@ def make_case(seed, i, nperm):
     if perms and tuple(rev) not in [tuple(p) for p in perms]:
         perms[0] = rev                       # always include the exact reverse of the default order
     case["perms"] = perms
+    case["out_dir"] = "build-out" if i % 3 == 2 else None       # `veryl build --out-dir build-out ...`
     return case
 
 
@@ -71,6 +72,9 @@ def scenario(case):
 
 def kind_of(rel, case):
     o = case["opts"]
+    od = case.get("out_dir")
+    if od and rel.startswith(od + os.sep):
+        rel = rel[len(od) + 1:]
     if rel == "Veryl.lock":
         return "lock"
     if rel in (case["name"] + ".f", case["name"] + ".list.rb"):
@@ -95,7 +99,8 @@ def one_build(case, d, home, files=None):
     L.rmtree(d)
     root = L.write_case(case, d)
     extra = list(files or [])
-    b = L.run_veryl(["build"] + extra, root, home)
+    od = ["--out-dir", case["out_dir"]] if case.get("out_dir") else []
+    b = L.run_veryl(["build"] + od + extra, root, home)
     c = L.run_veryl(["check"] + extra, root, home)
     outs = L.read_files(root, is_output)
     proc = [os.path.relpath(p, root) for p in L.processed_files(b["err"]) if p.startswith(root + os.sep)]
@@ -323,7 +328,9 @@ def main():
         for nt in res["notes"]:
             run.note(f"case {i}: {nt}")
         run.seen("scenarios", scenario(case))
-        run.seen("targets", case["opts"]["target"])
+        run.seen("targets", case["opts"]["target"] + ("+out-dir" if case.get("out_dir") else ""))
+        if case.get("out_dir"):
+            run.count("out_dir_projects")
         for ft in case["features"]:
             run.seen("features", ft)
         if res["counters"].get("projects_built") and (res["counters"].get("repeat_runs_compared", 0)
@@ -337,13 +344,14 @@ def main():
         for sig, what, detail in res["findings"]:
             run.violation(sig, what, {"case": case, "detail": detail,
                                       "how": "write case.tree below a directory, cd <dir>/root, run `veryl build` "
-                                             "(optionally with case.perms[k] as arguments) in fresh copies and diff"})
+                                             "(with `--out-dir case.out_dir` if set, optionally with case.perms[k] as "
+                                             "arguments) in fresh copies and diff"})
 
     L.run_cases(n, L.jobs(args), work, handle)
     if args.replay:
         run.finish([])
     run.finish([("projects_built", 5), ("repeat_runs_compared", 10), ("permutations_compared", 15),
-                ("distinct_orders", 20), ("diagnostic_records", 3), ("scenarios", 2)])
+                ("distinct_orders", 20), ("diagnostic_records", 3), ("scenarios", 2), ("out_dir_projects", 1)])
 
 
 if __name__ == "__main__":
